@@ -219,6 +219,7 @@ fn main() {
             cx.mirror::<i64>("i64", &name, &d, false);
         }
     });
+    eprintln!("[c02] move graphs done at {:.1}s", run.elapsed());
     // ---- (c) long histories: one path of up to 61 moves from a small diagram ---------------------------
     // Every kink type in turn on edges spread over the diagram (R1), and for braids cancelling pairs
     // plus Markov stabilisations; the library's tables at the checkpoints (31, 32, 33, 34, 40, 48, 63
@@ -230,33 +231,38 @@ fn main() {
             ("figure8".into(), braid_closure(3, &[1, -2, 1, -2]).unwrap()),
             ("hopf".into(), braid_closure(2, &[1, 1]).unwrap()),
         ];
-        let checkpoints: &[usize] = if th { &[16, 31, 32, 33, 34, 40, 48, 56, 63, 64] } else { &[31, 32, 33, 34, 64] };
-        run.par_for(bases.len() * 2, |bi| {
+        let checkpoints: &[usize] = if th { &[16, 31, 32, 33, 34, 40, 48, 56, 63, 64] } else { &[32, 33, 40] };
+        let jobs: Vec<(usize, usize)> = (0..bases.len() * 2).flat_map(|bi| checkpoints.iter().map(move |&cp| (bi, cp))).collect();
+        run.par_for(jobs.len(), |ji| {
+            let (bi, cp) = jobs[ji];
+            if !th && (bi == 2 || bi == 3 || bi == 5) {
+                return; // quick: trefoil, its mirror and the Hopf link
+            }
             let (name, d0) = &bases[bi / 2];
             let mirrored = bi % 2 == 1;
             let d0 = if mirrored { d0.mirror() } else { d0.clone() };
             let name = format!("long:{name}{}", if mirrored { ":mirror" } else { "" });
+            // the same deterministic path for every checkpoint of one base
             let mut d = d0.clone();
             let mut step = 0usize;
-            while d.n < 64 {
+            while d.n < cp {
                 step += 1;
                 let outs = d.out_darts();
                 let e = (step * 7) % outs.len();
                 d = d.r1(outs[e], step % 2 == 0, (step / 2) % 2 == 0);
-                if checkpoints.contains(&d.n) {
-                    run.add("long_history_checkpoints", 1);
-                    let mv = format!("{}-kinks", d.n - d0.n);
-                    cx.edge::<i64>("i64", &name, &d0, &mv, &d, false);
-                    cx.edge::<FF2>("FF2", &name, &d0, &mv, &d, false);
-                    if d0.components().len() == 1 {
-                        cx.edge::<i64>("i64", &name, &d0, &mv, &d, true);
-                    }
-                    if d.n == 33 || d.n == 64 {
-                        cx.mirror::<i64>("i64", &format!("{name}:{mv}"), &d, false);
-                    }
-                }
+            }
+            run.add("long_history_checkpoints", 1);
+            let mv = format!("{}-kinks", d.n - d0.n);
+            cx.edge::<i64>("i64", &name, &d0, &mv, &d, false);
+            cx.edge::<FF2>("FF2", &name, &d0, &mv, &d, false);
+            if d0.components().len() == 1 {
+                cx.edge::<i64>("i64", &name, &d0, &mv, &d, true);
+            }
+            if d.n == 33 || d.n == 64 {
+                cx.mirror::<i64>("i64", &format!("{name}:{mv}"), &d, false);
             }
         });
+        eprintln!("[c02] long kink histories done at {:.1}s", run.elapsed());
         // braids: sigma sigma^-1 insertions and Markov stabilisations up to 34 (thorough 48) letters
         let target = if th { 48 } else { 34 };
         run.par_for(2, |k| {
@@ -287,6 +293,7 @@ fn main() {
             }
         });
     }
+    eprintln!("[c02] long braid histories done at {:.1}s", run.elapsed());
     let coverage = json!({
         "long_history_checkpoints": run.get("long_history_checkpoints"),
         "states": run.get("diagrams") + run.get("braid_words"),
